@@ -37,6 +37,10 @@ MOD = "pymtl3.passes.tracing.VcdGenerationPass"
 def gen_case(R, tier):
   c = R("case")
   uid = "v%x" % (R.seed & 0xffffff)
+  if R("fam").random() < 0.06:
+    o = R("open")
+    return {"family": "openloop", "tmpl": gen_open(o, uid), "calls": None, "sched": ["openloop", o.getrandbits(32)],
+            "hash_seed": R.sub_seed("hash")}
   r = c.random()
   if r < 0.2:
     spec = templates.ff_ring(c, uid)
@@ -58,6 +62,185 @@ def gen_case(R, tier):
           # a second VCD-dumping simulator of the same design alive at the same time, driven with other
           # inputs and ticked in lock step (DUT + reference instance): dumps must not leak between them
           "coresident": R("cores").random() < 0.25}
+
+
+OPEN_SRC = '''
+from pymtl3 import *
+
+@bitstruct
+class Pair_{uid}:
+  hi: Bits{hi}
+  lo: Bits{lo}
+
+class Acc_{uid}(Component):
+  def construct(s):
+    s.in_ = InPort(Bits{w})
+    s.sum = OutPort(Bits{w})
+    s.st = OutPort(Pair_{uid})
+    @update_ff
+    def up_acc():
+      if s.reset:
+        s.sum <<= 0
+      else:
+        s.sum <<= s.sum + s.in_
+    @update
+    def up_st():
+      s.st.hi @= s.sum[{lo}:{w}]
+      s.st.lo @= s.sum[0:{lo}]
+
+class Top_{uid}(Component):
+  def construct(s):
+    s.element = None
+    s.count = Wire(Bits{w})
+    s.amp = Wire(Bits{w})
+    s.value = Wire(Bits{w})
+    s.st = Wire(Pair_{uid})
+    s.never = Wire(Bits{hi})
+    s.tied = Wire(Bits{lo})
+    s.tied //= {tied}
+    s.acc = [Acc_{uid}() for _ in range({nacc})]
+    for a in s.acc:
+      a.in_ //= s.count
+    @update_ff
+    def up_incr():
+      if s.reset:
+        s.count <<= 0
+      else:
+        s.count <<= s.count + {inc}
+    @update
+    def up_amp():
+      s.amp @= s.count * {mul}
+      s.st.hi @= s.count[0:{hi}]
+      s.st.lo @= s.count[{hi}:{w}]
+    @update
+    def up_compose_in():
+      if s.element is not None:
+        s.value @= s.amp + s.element
+        s.element = None
+      else:
+        s.value @= {idle}
+    s.add_constraints(M(s.push) < U(up_compose_in), U(up_compose_in) < M(s.pull))
+  @method_port
+  def push(s, ele):
+    if s.element is None:
+      s.element = ele
+  @method_port
+  def pull(s):
+    return s.value
+  def line_trace(s):
+    return ""
+'''
+
+
+def gen_open(c, uid):
+  hi, lo = c.randint(1, 9), c.randint(1, 12)
+  w = hi + lo
+  return {"uid": uid, "hi": hi, "lo": lo, "w": w, "nacc": c.randint(1, 3), "inc": c.randrange(1, 1 << min(w, 6)),
+          "mul": c.randint(2, min(9, (1 << w) - 1)), "idle": c.randrange(1 << w), "tied": c.randrange(1 << lo),
+          "calls": [["push", c.randrange(1 << w)] if c.random() < 0.5 else ["pull"] for _ in range(c.randint(6, 30))]}
+
+
+def run_open(case):
+  """VCD + text wave under the open-loop scheduler (OpenLoopCLPass): cycles roll over inside method calls"""
+  import random
+  from ..gen import emit
+  from pymtl3 import Bits1  # noqa: F401
+
+  def get_nbits(T):
+    if hasattr(T, "nbits"):
+      return T.nbits
+    n = 0
+    for f in T.__dataclass_fields__.values() if hasattr(T, "__dataclass_fields__") else T.__bitstruct_fields__.values():
+      ft = f.type if hasattr(f, "type") else f
+      n += sum(get_nbits(ft[0]) for _ in range(len(ft))) if isinstance(ft, list) else get_nbits(ft)
+    return n
+  from pymtl3.dsl import Signal
+  from pymtl3.passes.autotick.OpenLoopCLPass import OpenLoopCLPass
+  from pymtl3.passes.sim.GenDAGPass import GenDAGPass
+  from pymtl3.passes.tracing.PrintTextWavePass import PrintTextWavePass
+  from pymtl3.passes.tracing.VcdGenerationPass import VcdGenerationPass
+  t = case["tmpl"]
+  D = _rng.Digest()
+  stats = {"fault_counts": {"sched.openloop": 1}, "sim_cycles": 0, "vcd_bytes": 0,
+           "probes": {"shared_net_top_members": 1, "struct_signals": 1, "openloop_rollovers": 0}}
+  fs = seams.FakeFS()
+  viols = []
+  seams.set_hash_stream(case["hash_seed"])
+  try:
+    with seams.patched(MOD, open=fs.open):
+      mod = sys.modules[MOD]
+      real_time = mod.time
+
+      class _T:
+        @staticmethod
+        def asctime():
+          return "Thu Jan  1 00:00:00 1970"
+      mod.time = _T
+      try:
+        ns, cls, _ = emit.build({"uid": t["uid"], "top": "Top"}, src=OPEN_SRC.format(**t))
+        top = cls()
+        top.elaborate()
+        top.set_metadata(VcdGenerationPass.vcd_file_name, "dsim_wave")
+        top.set_metadata(PrintTextWavePass.enable, True)
+        top.apply(GenDAGPass())
+        seams.seed_dag_order(top, random.Random(case["sched"][1]))
+        random.seed(case["sched"][1])
+        top.apply(OpenLoopCLPass(print_line_trace=False))
+      finally:
+        mod.time = real_time
+  except Exception as e:
+    return {"violations": [C.exc_violation(e, "build/openloop")], "digest": D.hex(), "nontrivial": False, "stats": stats}
+  sigs = sorted((x for x in top._dsl.all_signals if x.is_top_level_signal()), key=repr)
+  keys = [repr(x) for x in sigs]
+  widths = {repr(x): get_nbits(x._dsl.Type) for x in sigs}
+  acc = cosim.Accessors(top, keys)
+  smp = DumpSampler(acc)
+  changed_cycles = {}
+  try:
+    sys.setprofile(smp.prof)
+    try:
+      top.sim_reset()
+      for call in case["calls"]:
+        c0 = top.sim_cycle_count()
+        if call[0] == "push":
+          top.push(call[1])
+        else:
+          D.add(int(top.pull()))
+        if top.sim_cycle_count() != c0:
+          stats["probes"]["openloop_rollovers"] += 1
+    finally:
+      sys.setprofile(None)
+    text = fs.current("dsim_wave.vcd")
+    stats["vcd_bytes"] = len(text)
+    ncyc = len(smp.samples)
+    stats["sim_cycles"] = ncyc
+    if ncyc != 2 + stats["probes"]["openloop_rollovers"]:
+      viols.append(C.viol("dump_call_count", {"got": ncyc, "want": 2 + stats["probes"]["openloop_rollovers"],
+                                              "mode": "open-loop"}))
+    bad = check_vcd(text, smp.samples, widths, keys, ncyc)
+    if bad:
+      viols.append(C.viol(bad[0], dict(bad[1], sched="openloop")))
+    tw = top.get_metadata(PrintTextWavePass.textwave_dict)
+    for k, lst in sorted(tw.items()):
+      if viols:
+        break
+      if len(lst) != ncyc:
+        viols.append(C.viol("textwave_length", {"signal": k, "got": len(lst), "want": ncyc, "sched": "openloop"}))
+        break
+      for i in range(ncyc):
+        want = "0b" + format(smp.samples[i][k], "0%db" % widths[k])
+        if lst[i] != want:
+          viols.append(C.viol("textwave_value", {"signal": k, "cycle": i, "got": lst[i], "want": want, "sched": "openloop"}))
+          break
+    for i in range(1, ncyc):
+      for k, v in smp.samples[i].items():
+        if v != smp.samples[i - 1][k]:
+          changed_cycles.setdefault(k, set()).add(i)
+    D.add(_rng.digest(text))
+  except Exception as e:
+    viols.append(C.exc_violation(e, "sim/openloop"))
+  multi = sum(1 for k, s in changed_cycles.items() if len(s) >= 2 and not k.endswith(".clk"))
+  return {"violations": viols[:2], "digest": D.hex(), "nontrivial": multi >= 1, "stats": stats}
 
 
 class DumpSampler:
@@ -115,6 +298,8 @@ def check_vcd(text, samples, widths, all_keys, ncycles):
 
 def run_case(case):
   from pymtl3.passes.tracing.PrintTextWavePass import PrintTextWavePass
+  if case.get("family") == "openloop":
+    return run_open(dict(case, calls=case["calls"] if case.get("calls") is not None else case["tmpl"]["calls"]))
   spec = case["spec"]
   sched, sseed = case["sched"]
   D = _rng.Digest()
@@ -232,11 +417,20 @@ def run_case(case):
 
 def sample(case):
   from ..gen import emit
+  if case.get("family") == "openloop":
+    return {"family": "openloop", "calls": case["tmpl"]["calls"][:8], "source_head": OPEN_SRC.format(**case["tmpl"])[:1200]}
   return {"profile": case["spec"].get("profile"), "sched": case["sched"], "stops": case["stops"],
           "n_cycles": len(case["inputs"]), "source_head": emit.source(case["spec"])[:1200]}
 
 
 def shrink(case):
+  if case.get("family") == "openloop":
+    calls = case["calls"] if case.get("calls") is not None else case["tmpl"]["calls"]
+    for i in range(len(calls)):
+      yield dict(case, calls=calls[:i] + calls[i + 1:])
+    if case["tmpl"]["nacc"] > 1:
+      yield dict(case, tmpl=dict(case["tmpl"], nacc=1))
+    return
   for cand in C.shrink_spec_case(case, keep_sched_key="_none"):
     cand = dict(cand)
     cand["stops"] = [s for s in case["stops"] if s < len(cand["inputs"])]
